@@ -54,6 +54,7 @@ class Harness:
         self.report = {"pid": os.getpid()}
         self.active = True
         self.short = case.get("short")      # the file system has room for this many more bytes (None: unlimited)
+        self.intruder = None                # (effect position, callable): another store instance acts just before it
 
     def fname(self, path):
         path = os.fspath(path)
@@ -86,6 +87,15 @@ class Harness:
         """log effect e, return the fault that hits it (crashes do not return)"""
         if not self.active:
             return ["n"]
+        if not cleanup and self.intruder is not None and self.i == self.intruder[0]:
+            # the interleaving point: before this effect of the writer another store instance on the same directory
+            # performs a complete operation of its own (its I/O is neither logged nor hit by faults)
+            act, self.intruder = self.intruder[1], None
+            self.active = False
+            try:
+                act()
+            finally:
+                self.active = True
         if cleanup:
             fk = self.fc
         else:
@@ -432,6 +442,13 @@ def run_sdk(case):
         new_tok = None
         if not bad:
             new_tok = tok(obj)
+        # another store instance working on the same directory (another worker/service): just before effect number
+        # intr["at"] of the write under test it adds an object of its own with the SAME id (complete, un-faulted)
+        intr = case.get("intr")
+        iobj = intr_tok = None
+        if intr is not None:
+            iobj = L.make_object(intr["kind"], idlist[key], intr["v"])
+            intr_tok = tok(iobj)
         for (n, size) in case["extra"]:
             with open(os.path.join(d, OTHER_NAMES[n]), "wb") as f:
                 f.write(b"#" * size)
@@ -463,6 +480,27 @@ def run_sdk(case):
                         raise EXC[fk[1]]()
                     return real_gs(x)
                 cstore.generate_source = gs
+                if intr is not None:
+                    import threading as _threading
+                    istore = local_file.LocalFileObjectStore(d)
+
+                    def run_intruder():
+                        # in a thread of its own: like another worker it has its own temporary-file name
+                        res = {}
+
+                        def body():
+                            try:
+                                istore.add(iobj)
+                                res["outcome"] = [0]
+                            except BaseException as e:   # noqa
+                                res["outcome"] = [1, L.exc_code(e)]
+                                res["exc"] = "{}: {}".format(type(e).__name__, e)[:200]
+                        t = _threading.Thread(target=body, daemon=True)
+                        t.start()
+                        t.join(3 * CALL_LIMIT)
+                        res.setdefault("outcome", [7])
+                        H.report["intr"] = res
+                    H.intruder = (intr["at"], run_intruder)
                 try:
                     with L.deadline(3 * CALL_LIMIT):
                         if case["op"] == "add":
@@ -485,6 +523,15 @@ def run_sdk(case):
                 # through the instance that does would refresh it, i.e. undo the change that is to be retried)
                 H.report["same"] = answers(cstore, idlist, table)
                 H.report["table_len"] = len(table)
+                if intr is not None and H.report.get("intr", {}).get("outcome") == [0]:
+                    # the handle of the object the other instance stored: still marked, still refreshable
+                    H.report["intr"]["source"] = iobj.source
+                    try:
+                        with L.deadline(CALL_LIMIT):
+                            iobj.update()
+                        H.report["intr"]["update"] = None
+                    except BaseException as e:   # noqa
+                        H.report["intr"]["update"] = "{}: {}".format(type(e).__name__, e)[:200]
                 H.send()
                 # ---- second phase: once the parent has inspected the directory, the SAME operation with the same
                 # content is retried on the same instance (no fault this time) and the instance is asked again
@@ -593,10 +640,15 @@ def run_sdk(case):
         # ---- property oracle (independent of the model)
         fail = None
         bad = case["kind"] in L.BAD_KINDS
+        intr_rep = rep.get("intr") if intr is not None else None
+        intr_stored = bool(intr_rep and intr_rep["outcome"] == [0])     # the other instance's add() returned
 
         def flag(what, msg):
             nonlocal fail
             if fail is None:
+                if intr is not None:
+                    msg += " [another store instance on the same directory add()ed the same id just before effect " \
+                           "{} of the write: {}]".format(intr["at"], intr_rep)
                 kindf = "none"
                 if case.get("short") is not None:
                     kindf = "device-full"
@@ -605,6 +657,8 @@ def run_sdk(case):
                         kindf = {"r": "exception-injected", "c": "process-dies"}[fk[0]]
                         break
                 pk = "bad-payload" if bad else "good-payload"
+                if intr is not None:
+                    kindf += "+other-instance"
                 fail = ("C15:{}:{}:{}:{}".format(case["op"], pk, kindf, what), msg)
         docname = L.doc_name(idlist[key])
         is_new = False
@@ -624,11 +678,14 @@ def run_sdk(case):
                 cls = classify(docname, after[docname])
                 is_old = docname in before and after[docname] == before[docname]
                 is_new = (not bad) and cls == [1, new_tok]
-                if not (is_old or is_new):
+                if not (is_old or is_new or (intr_stored and cls == [1, intr_tok])):
                     flag("document-corrupt", "{}: document of the written id is neither the old nor the complete new "
                                              "version ({} bytes, classified {})".format(how, len(after[docname]), cls))
             elif docname in before:
                 flag("document-lost", "{}: document of the written id vanished".format(how))
+            elif intr_stored:
+                flag("document-lost", "{}: the document of the written id, stored completely by another store instance "
+                                      "(its add() returned, nobody discarded it), vanished".format(how))
             if fresh["hang"]:
                 flag("fresh-store-hangs", "{}: {} did not return within {} s".format(how, fresh["hang"][0], CALL_LIMIT))
                 return
@@ -685,7 +742,8 @@ def run_sdk(case):
                 if rep["outcome"][0] == 1:
                     if rep["source"] != "":
                         flag("failed-add-marked", "failed add left source={!r}".format(rep["source"]))
-                    if docname not in before and docname in after:
+                    if docname not in before and docname in after and not (
+                            intr_stored and classify(docname, after[docname]) == [1, intr_tok]):
                         flag("failed-add-contained", "failed add ({}) left the id contained".format(rep.get("exc")))
                 else:
                     if docname not in after or rep["source"] == "" or not is_new:
@@ -694,6 +752,18 @@ def run_sdk(case):
                 flag("commit-returned-not-stored", "commit returned but the document is not the new version")
         if unknown and not all(u.endswith(".tmp") for u in unknown):
             flag("unexpected-file", "unknown files {}".format(unknown))
+        if intr_rep is not None:
+            if intr_rep["outcome"] == [7]:
+                flag("other-instance-hangs", "add() through the other store instance did not return")
+            elif intr_rep["outcome"] not in ([0], [1, 2]):
+                flag("other-instance-add-failed", "the un-faulted add() through the other store instance raised {}".format(
+                    intr_rep.get("exc")))
+            elif intr_stored and not crashed and not hung:
+                if intr_rep.get("source", "") == "":
+                    flag("other-instance-unmarked", "the object stored through the other instance lost its source")
+                elif docname in after and classify(docname, after[docname]) == [1, intr_tok] and intr_rep.get("update"):
+                    flag("other-instance-handle-broken", "update() of the object stored through the other instance "
+                                                         "raised {}".format(intr_rep["update"]))
         # ---- retry: the same operation with the same content, without fault - on the same instance in the same
         # process if it is still there, else (it died) in this process on a new instance; then everything again
         retry = None
@@ -1371,7 +1441,35 @@ def gen_random_case(rng):
         case["F"] = []
         case["fc"] = rng.choice([["n"], ["n"], ["r", 1, None], ["c", None]])
         case["short"] = rng.choice([0, 1, size // 3, size // 2, max(1, size - 1)])
+    elif rng.random() < 0.15:
+        # a second store instance on the same directory adds the same id between two effects of this write
+        case["intr"] = {"at": rng.randrange(len(EFFECTS[op])), "kind": rng.choice(L.GOOD_KINDS), "v": rng.randrange(9, 12)}
     return case
+
+
+def intruder_core_cases():
+    """two store instances on one directory: instance B add()s the id completely just before effect number `at` of
+    instance A's add()/commit() of the same id, and A is un-faulted, raises or dies at every effect from there on"""
+    res = []
+    for op in ("add", "commit"):
+        base = {"op": op, "key": 1, "ids": 0, "others": [(3, "sm_props", 1)], "extra": [(0, 3)], "stale_tmp": None,
+                "v_new": 6, "pre": None if op == "add" else ("sm_props", 2), "kind": "sm_props"}
+        if op == "commit":
+            base["commit_missing"] = True       # (otherwise B's add() is a plain duplicate)
+        effs = EFFECTS[op]
+        for at in range(len(effs)):
+            intr = {"at": at, "kind": "sm_small", "v": 9}
+            res.append(dict(base, F=[], fc=["n"], intr=intr))
+            for pos in range(at, len(effs)):
+                pre = [["n"]] * pos
+                res.append(dict(base, F=pre + [["c", None]], fc=["n"], intr=intr))
+                if effs[pos] in ("exists", "cache", "source"):
+                    continue
+                x = 4 if effs[pos] == "encode" else 1
+                res.append(dict(base, F=pre + [["r", x, None]], fc=["n"], intr=intr))
+                if pos == at and effs[pos] != "encode":
+                    res.append(dict(base, F=pre + [["r", x, 0]], fc=["r", 1, None], intr=intr))
+    return res
 
 
 def core_cases():
@@ -1444,10 +1542,12 @@ def run(chk):
         for fn in sorted(os.listdir(corpus)):
             cases.append(json.load(open(os.path.join(corpus, fn)))["case"])
     cases += core_cases()
+    cases += intruder_core_cases()
     ncore = len(cases)
     for _ in range(350 if chk.tier == "quick" else 5000):
         cases.append(gen_random_case(rng))
     terms = []
+    term_cases = []
     for case in cases:
         case["others"] = [tuple(o) for o in case["others"]]
         case["extra"] = [tuple(o) for o in case["extra"]]
@@ -1500,7 +1600,14 @@ def run(chk):
             sig, msg = r2["fail"] or res["fail"]
             chk.fail(sig, msg, {"case": small, "how": "tools/c15.py run_sdk(case): fork, inject the fault, inspect "
                                                       "directory and a fresh store", "child_report": r2["rep"]})
-        terms.append(coq_case(case, res))
+        if case.get("intr") is None:        # (the model has one writing instance; interleaved ones: property oracle)
+            terms.append(coq_case(case, res))
+            term_cases.append(case)
+        else:
+            chk.count("other-instance-add@{}={}".format(
+                EFFECTS[case["op"]][case["intr"]["at"]],
+                {0: "stored", 1: "rejected", 7: "hung"}.get((res["rep"].get("intr") or {"outcome": [None]})["outcome"][0],
+                                                            "not-reached")))
         if len(chk.samples) < 4 and hit and len(case["others"]) >= 1:
             chk.samples.append({"case": case, "sdk_observation": res["obs"]})
     # ---- concurrent writers: threads of one process committing the same object, interleaved effect by effect
@@ -1531,7 +1638,7 @@ def run(chk):
         chk.tie_broken("correspondence-run", e)
     if bad:
         i = bad[0]
-        case = cases[i]
+        case = term_cases[i]
 
         def still(c):
             r = run_sdk(c)
@@ -1562,7 +1669,10 @@ def run(chk):
                        "cannot fail) for C15_add_reports"]
     return chk.finish(level="proof",
                       rule="core: every effect position of add and commit x {raise, die} x 5 flush amounts x 4 cleanup "
-                           "outcomes for one payload, rejected payloads, duplicate add, commit of a vanished document, "
+                           "outcomes for one payload; two store instances on one directory: instance B add()s the same id "
+                           "completely just before effect n of instance A's add()/commit(), for every n, A un-faulted / "
+                           "raising / dying at every effect from n on (the id must end up holding A's or B's complete "
+                           "version, never vanish; judged by the property oracle only); rejected payloads, duplicate add, commit of a vanished document, "
                            "a device with room for 0/1/half/all-but-one bytes of the document (short raw writes, then "
                            "ENOSPC, met by the SDK's own file layers); after every case the directory is re-opened by the "
                            "constructor, check_directory(create=False) and check_directory(create=True), every SDK call "
